@@ -39,13 +39,18 @@ const c20MarkField = "c20_cut_mark"
 // ---------------------------------------------------------------- plugins
 
 type c20Input struct {
-	committed atomic.Bool // what PassEvent answers: the input recognises the event as already committed
+	committed atomic.Bool  // what PassEvent answers: the input recognises the event as already committed
+	suggest   decoder.Type // what the input suggests when the pipeline decoder is "auto" (as the k8s input does)
 }
 
-func (p *c20Input) Start(_ AnyConfig, _ *InputPluginParams) {}
-func (p *c20Input) Stop()                                   {}
-func (p *c20Input) Commit(_ *Event)                         {}
-func (p *c20Input) PassEvent(_ *Event) bool                 { return !p.committed.Load() }
+func (p *c20Input) Start(_ AnyConfig, params *InputPluginParams) {
+	if p.suggest != decoder.NO {
+		params.Controller.SuggestDecoder(p.suggest)
+	}
+}
+func (p *c20Input) Stop()                   {}
+func (p *c20Input) Commit(_ *Event)         {}
+func (p *c20Input) PassEvent(_ *Event) bool { return !p.committed.Load() }
 
 type c20Delivered struct {
 	seq      uint64
@@ -159,6 +164,7 @@ type c20SizeViol struct {
 	Got     string       `json:"got"`
 	Panic   string       `json:"panic,omitempty"`
 	Harness string       `json:"harness"`
+	RawCase any          `json:"raw_case,omitempty"` // cri / exception-list case, for --replay
 }
 
 // the body of a record of length L for a decoder; position i (1-based) of the abstract record is byte i-1
@@ -747,6 +753,203 @@ func c20RunSchedGroup(id int, cases []*c20HistCase, st *c20SchedStats) {
 	st.mu.Unlock()
 }
 
+// ---------------------------------------------------------------- CRI lines x antispam setting
+//
+// Well-formed CRI lines (time zone Z / numeric offset, with / without fraction, stdout / stderr, full / partial)
+// through the real Pipeline.In with decoder "cri" and with decoder "auto" + an input that suggests cri, under
+// antispam disabled / threshold 0 + rule for the source / large threshold.  Nothing is banned, so every record
+// must be admitted and delivered unaltered (log, time, stream), whatever the antispam setting.
+
+type c20CriCase struct {
+	Zone   string `json:"zone"`
+	Stream string `json:"stream"`
+	Flag   string `json:"flag"`
+	Anti   string `json:"anti"`
+}
+
+type c20MiscStats struct {
+	mu                            sync.Mutex
+	criExecuted, criDelivered     int
+	xlExecuted, xlExempt, xlDrift int
+	pipelines                     int
+	viols                         []*c20SizeViol
+}
+
+func (st *c20MiscStats) add(v *c20SizeViol) {
+	st.mu.Lock()
+	if len(st.viols) < 100 {
+		st.viols = append(st.viols, v)
+	}
+	st.mu.Unlock()
+}
+
+func c20RunCriGroup(id int, dec string, anti string, cases []*c20CriCase, st *c20MiscStats) {
+	s := &Settings{Decoder: dec, Antispam: AntispamSettings{Threshold: DefaultAntispamThreshold, MaintenanceInterval: time.Hour}}
+	switch anti {
+	case "zero+rule":
+		chk, err := doif.NewFromMap(map[string]any{"op": "equal", "field": "source_name", "values": []any{"c20cri"}})
+		if err != nil {
+			panic(err)
+		}
+		s.Antispam.Threshold = 0
+		s.Antispam.Rules = antispam.Rules{{Name: "c20cri", Threshold: 1 << 30, DoIfChecker: chk}}
+	case "large":
+		s.Antispam.Threshold = 1 << 30
+	}
+	p, in, out := c20NewPipeline(fmt.Sprintf("c20cri%d", id), s)
+	out.record = true
+	if dec == "auto" {
+		in.suggest = decoder.CRI
+	}
+	p.Start()
+	defer p.Stop()
+	st.mu.Lock()
+	st.pipelines++
+	st.mu.Unlock()
+	stamps := map[string][]string{
+		"z":      {"2016-10-06T00:17:09.669794202Z", "2016-10-06T00:17:09Z"},
+		"offset": {"2016-10-06T03:17:09.669794202+03:00", "2016-10-05T17:17:09-07:00"},
+	}
+	n := 0
+	for _, c := range cases {
+		for _, ts := range stamps[c.Zone] {
+			for _, content := range []string{"Hello World", `{"a":"b","N":1}`} {
+				n++
+				func() {
+					line := ts + " " + c.Stream + " " + c.Flag + " " + content + "\n"
+					mk := func(kind, want, got string) *c20SizeViol {
+						return &c20SizeViol{Kind: kind, Decoder: dec, Why: "antispam=" + anti, Input: line, Want: want, Got: got, Harness: "pipeline-cri", RawCase: c}
+					}
+					defer func() {
+						if r := recover(); r != nil {
+							v := mk("panic", "", "")
+							v.Panic = fmt.Sprint(r)
+							st.add(v)
+						}
+					}()
+					seq := p.In(SourceID(7), "c20cri", Offsets{current: int64(n)}, []byte(line), false, nil)
+					st.mu.Lock()
+					st.criExecuted++
+					st.mu.Unlock()
+					if seq == EventSeqIDError {
+						st.add(mk("refused_without_reason", "delivered", "In returned 0"))
+						return
+					}
+					var d c20Delivered
+					select {
+					case d = <-out.ch:
+					case <-time.After(30 * time.Second):
+						st.add(mk("not_delivered", "event at the output", "nothing after 30s"))
+						return
+					}
+					st.mu.Lock()
+					st.criDelivered++
+					st.mu.Unlock()
+					wantLog := content + "\n"
+					if c.Flag == "P" {
+						wantLog = content // DecodeCRI strips the line end of a partial line
+					}
+					var got map[string]any
+					_ = json.Unmarshal([]byte(d.doc), &got)
+					want := map[string]any{"log": wantLog, "time": ts, "stream": c.Stream}
+					wb, _ := json.Marshal(want)
+					gb, _ := json.Marshal(got)
+					if string(wb) != string(gb) {
+						st.add(mk("bytes_differ", string(wb), d.doc))
+					}
+				}()
+			}
+		}
+	}
+}
+
+// ---------------------------------------------------------------- exception lists through In
+//
+// One running pipeline per list structure (which entries are check_source_name); the abstract bits "rule i matches
+// the record / the source name" are realised by tokens in the record and in the source name.  Threshold 1: a fresh
+// source's first counted record is refused, so "admitted" <=> recognised as exempt.
+
+type c20XlCase struct {
+	Excs   [][]int `json:"excs"` // per exception: check_source_name, matches record, matches source name
+	Exempt bool    `json:"exempt"`
+	Mex    bool    `json:"mex"`
+}
+
+func c20XlTokens(c *c20XlCase) (content, name string) {
+	content, name = "ev", "src"
+	for i, e := range c.Excs {
+		if e[1] == 1 {
+			content += fmt.Sprintf(" <%d>", i+1)
+		}
+		if e[2] == 1 {
+			name += fmt.Sprintf(" <%d>", i+1)
+		}
+	}
+	return
+}
+
+func c20RunXlGroup(id int, cases []*c20XlCase, st *c20MiscStats) {
+	c0 := cases[0]
+	var exc antispam.Exceptions
+	for i, e := range c0.Excs {
+		exc = append(exc, antispam.Exception{
+			RuleSet: matchrule.RuleSet{Name: fmt.Sprintf("c20x%d", i+1), Cond: matchrule.CondOr,
+				Rules: []matchrule.Rule{{Mode: matchrule.ModeContains, Values: []string{fmt.Sprintf("<%d>", i+1)}}}},
+			CheckSourceName: e[0] == 1,
+		})
+	}
+	exc.Prepare()
+	s := &Settings{Decoder: "raw", Antispam: AntispamSettings{Threshold: 1, MaintenanceInterval: time.Hour, Exceptions: exc}}
+	p, _, out := c20NewPipeline(fmt.Sprintf("c20xl%d", id), s)
+	p.Start()
+	defer p.Stop()
+	st.mu.Lock()
+	st.pipelines++
+	st.mu.Unlock()
+	accepted := int64(0)
+	for ci, c := range cases {
+		func() {
+			content, name := c20XlTokens(c)
+			mk := func(kind, want, got string) *c20SizeViol {
+				b, _ := json.Marshal(c)
+				return &c20SizeViol{Kind: kind, Decoder: "raw", Why: "exception list " + string(b), Input: content + " from " + name,
+					Want: want, Got: got, Harness: "pipeline-xlist", RawCase: c}
+			}
+			defer func() {
+				if r := recover(); r != nil {
+					v := mk("panic", "", "")
+					v.Panic = fmt.Sprint(r)
+					st.add(v)
+				}
+			}()
+			seq := p.In(SourceID(100+ci), name, Offsets{current: int64(ci + 1)}, []byte(content+"\n"), false, nil)
+			refused := seq == EventSeqIDError
+			if !refused {
+				accepted++
+			}
+			st.mu.Lock()
+			st.xlExecuted++
+			if c.Exempt {
+				st.xlExempt++
+			}
+			if refused == c.Mex {
+				st.xlDrift++
+			}
+			st.mu.Unlock()
+			if c.Exempt && refused {
+				st.add(mk("exception_dropped", "admitted: an exception of the list matches its own subject", "In returned 0"))
+			}
+		}()
+	}
+	deadline := time.Now().Add(30 * time.Second)
+	for out.count.Load() < accepted && time.Now().Before(deadline) {
+		time.Sleep(time.Millisecond)
+	}
+	if out.count.Load() != accepted {
+		st.add(&c20SizeViol{Kind: "not_delivered", Harness: "pipeline-xlist", Got: fmt.Sprintf("accepted %d, delivered %d", accepted, out.count.Load())})
+	}
+}
+
 // ---------------------------------------------------------------- driver
 
 func TestVerifC20(t *testing.T) {
@@ -766,6 +969,9 @@ func TestVerifC20(t *testing.T) {
 	var histOrder []string
 	schedGroups := map[string][]*c20HistCase{}
 	var schedOrder []string
+	criGroups := map[string][]*c20CriCase{}
+	xlGroups := map[string][]*c20XlCase{}
+	var xlOrder []string
 	sc := bufio.NewScanner(f)
 	sc.Buffer(make([]byte, 1<<20), 1<<24)
 	for sc.Scan() {
@@ -775,7 +981,26 @@ func TestVerifC20(t *testing.T) {
 		if err := json.Unmarshal(sc.Bytes(), &head); err != nil {
 			t.Fatalf("bad case line: %v", err)
 		}
-		if head.Part == "size" {
+		if head.Part == "cri" {
+			c := &c20CriCase{}
+			if err := json.Unmarshal(sc.Bytes(), c); err != nil {
+				t.Fatalf("bad cri case: %v", err)
+			}
+			criGroups[c.Anti] = append(criGroups[c.Anti], c)
+		} else if head.Part == "xlist" {
+			c := &c20XlCase{}
+			if err := json.Unmarshal(sc.Bytes(), c); err != nil {
+				t.Fatalf("bad exception-list case: %v", err)
+			}
+			k := ""
+			for _, e := range c.Excs {
+				k += fmt.Sprint(e[0])
+			}
+			if _, ok := xlGroups[k]; !ok {
+				xlOrder = append(xlOrder, k)
+			}
+			xlGroups[k] = append(xlGroups[k], c)
+		} else if head.Part == "size" {
 			c := &c20SizeCase{}
 			if err := json.Unmarshal(sc.Bytes(), c); err != nil {
 				t.Fatalf("bad size case: %v", err)
@@ -826,6 +1051,32 @@ func TestVerifC20(t *testing.T) {
 			c20RunSchedGroup(id, cs, cst)
 		}(id, schedGroups[k])
 	}
+	mst := &c20MiscStats{}
+	for _, anti := range []string{"disabled", "zero+rule", "large"} {
+		for _, dec := range []string{"cri", "auto"} {
+			if len(criGroups[anti]) == 0 {
+				continue
+			}
+			id++
+			wg.Add(1)
+			sem <- struct{}{}
+			go func(id int, dec, anti string) {
+				defer wg.Done()
+				defer func() { <-sem }()
+				c20RunCriGroup(id, dec, anti, criGroups[anti], mst)
+			}(id, dec, anti)
+		}
+	}
+	for _, k := range xlOrder {
+		id++
+		wg.Add(1)
+		sem <- struct{}{}
+		go func(id int, cs []*c20XlCase) {
+			defer wg.Done()
+			defer func() { <-sem }()
+			c20RunXlGroup(id, cs, mst)
+		}(id, xlGroups[k])
+	}
 	for _, g := range sizeOrder {
 		id++
 		wg.Add(1)
@@ -865,6 +1116,8 @@ func TestVerifC20(t *testing.T) {
 		cv = append(cv, vs...)
 	}
 	res := map[string]interface{}{
+		"misc": map[string]interface{}{"cri_executed": mst.criExecuted, "cri_delivered": mst.criDelivered, "xlist_executed": mst.xlExecuted,
+			"xlist_exempt": mst.xlExempt, "xlist_drift": mst.xlDrift, "pipelines": mst.pipelines, "violations": mst.viols},
 		"sched": map[string]interface{}{"executed": cst.executed, "steps": cst.steps, "pipelines": cst.groups, "banned_in_first_burst": cst.sawBan,
 			"banned_then_admitted": cst.bannedThenAdmit, "interval_ms": c20SchedInterval.Milliseconds(), "violations": cv, "violation_counts": cst.counts},
 		"size": map[string]interface{}{"executed": sst.executed, "delivered": sst.delivered, "refused": sst.refused,
